@@ -70,6 +70,9 @@ func c15ErrClass(err error) string {
 	if i := strings.Index(s, ", filename"); i > 0 {
 		s = s[:i]
 	}
+	for _, p := range []string{"Error calling the VM: ", "RuntimeError: ", "Error in wasm module: ", "backend error: "} {
+		s = strings.ReplaceAll(s, p, "")
+	}
 	s = reHex.ReplaceAllString(s, "#")
 	if len(s) > 70 {
 		s = s[:70]
@@ -461,6 +464,25 @@ func (x *c15Ctx) checkSuccess(a *C15Action, kind string, tr *TwinResult, rc *typ
 				for k, v := range s1 {
 					if strings.HasPrefix(k, pfx) && new(big.Int).SetBytes(v).Sign() != 0 {
 						bad("votes-reset", "vote amount %x not reset after push", v)
+					}
+				}
+			}
+		case kSpender:
+			if att.Method == "send" && len(arg(0)) == 20 || att.Method == "burn" {
+				amt := new(big.Int).SetBytes(arg(len(args) - 1))
+				dest := addr
+				if att.Method == "send" {
+					dest = c15AddrOf(arg(0))
+				}
+				if (dest != addr || att.Method == "burn") && !special(addr) {
+					want := new(big.Int).Sub(tx.AmountOrZero(), amt)
+					if d := delta(l0, l1, addr); d.Cmp(want) != 0 {
+						bad("contract-balance", "contract balance changed by %v, expected pay amount %v - %s %v", d, tx.AmountOrZero(), att.Method, amt)
+					}
+				}
+				if att.Method == "send" && dest != addr && !special(dest) {
+					if d := delta(l0, l1, dest); d.Cmp(amt) != 0 {
+						bad("dest-balance", "destination %x received %v, sent amount %v", dest[:4], d, amt)
 					}
 				}
 			}
